@@ -26,7 +26,7 @@ theorem checkPass_sim_err (b : Bool) (d : Nat) : ∀ (todo : List Nat) (x y : Ch
           rw [if_pos hry]
           exact ⟨_, rfl⟩
         · have hc : (y.get i).c = (x.get i).c := hf.2.2.2.2.2 hid
-          rw [hc, hf.2.2.2.1, hf.2.2.1, hf.1, hf.2.2.2.2.1]
+          rw [hc, hf.2.2.2.1 hid, hf.2.2.1, hf.1, hf.2.2.2.2.1]
           by_cases hr : (x.get i).c.required = true
           · rw [if_pos hr]; exact ⟨_, rfl⟩
           · rw [if_neg hr] at h ⊢
@@ -102,9 +102,9 @@ theorem markAll_sim_err (d : Nat) : ∀ (todo : List Nat) (x y : Chain) (rem : L
 
 /-- a trial pass that succeeds leaves a Desired provider that is not excluded in -/
 theorem checkPass_keeps_desired (d : Nat) : ∀ (todo : List Nat) (x : Chain) (seen redo : List Nat) (x' : Chain) (redo' : List Nat),
-    (x.get d).inc = true → (x.get d).c.desired = true → (x.get d).excluded = false →
+    (x.get d).inc = true → ((x.get d).wanted || (x.get d).c.desired) = true → (x.get d).excluded = false →
     checkPass false todo x seen redo = .ok (x', redo') →
-      (x'.get d).inc = true ∧ (x'.get d).c.desired = true ∧ (x'.get d).excluded = false
+      (x'.get d).inc = true ∧ ((x'.get d).wanted || (x'.get d).c.desired) = true ∧ (x'.get d).excluded = false
   | [], x, seen, redo, x', redo', hi, hdes, hx, h => by
     simp only [checkPass] at h; cases h; exact ⟨hi, hdes, hx⟩
   | i :: todo, x, seen, redo, x', redo', hi, hdes, hx, h => by
@@ -135,15 +135,16 @@ theorem checkPass_keeps_desired (d : Nat) : ∀ (todo : List Nat) (x : Chain) (s
         · exact checkPass_keeps_desired d todo x _ _ x' redo' hi hdes hx h
         · have hget : ((x.upd i fun f => { f with cannot := true }).get d).inc = (x.get d).inc ∧
               ((x.upd i fun f => { f with cannot := true }).get d).c = (x.get d).c ∧
-              ((x.upd i fun f => { f with cannot := true }).get d).excluded = (x.get d).excluded := by
+              ((x.upd i fun f => { f with cannot := true }).get d).excluded = (x.get d).excluded ∧
+              ((x.upd i fun f => { f with cannot := true }).get d).wanted = (x.get d).wanted := by
             rw [get_upd]; split
-            · rename_i hh; rw [hh.1]; exact ⟨rfl, rfl, rfl⟩
-            · exact ⟨rfl, rfl, rfl⟩
-          exact checkPass_keeps_desired d todo _ _ _ x' redo' (by rw [hget.1]; exact hi) (by rw [hget.2.1]; exact hdes)
-            (by rw [hget.2.2]; exact hx) h
+            · rename_i hh; rw [hh.1]; exact ⟨rfl, rfl, rfl, rfl⟩
+            · exact ⟨rfl, rfl, rfl, rfl⟩
+          exact checkPass_keeps_desired d todo _ _ _ x' redo' (by rw [hget.1]; exact hi) (by rw [hget.2.1, hget.2.2.2]; exact hdes)
+            (by rw [hget.2.2.1]; exact hx) h
 
 theorem checkFlows_keeps_desired (d : Nat) : ∀ (fuel : Nat) (todo : List Nat) (x x' : Chain),
-    (x.get d).inc = true → (x.get d).c.desired = true → (x.get d).excluded = false →
+    (x.get d).inc = true → ((x.get d).wanted || (x.get d).c.desired) = true → (x.get d).excluded = false →
     checkFlows false fuel todo x = .ok x' → (x'.get d).inc = true
   | 0, _, _, _, _, _, _, h => by simp [checkFlows] at h
   | fuel + 1, todo, x, x', hi, hdes, hx, h => by
@@ -157,7 +158,7 @@ theorem checkFlows_keeps_desired (d : Nat) : ∀ (fuel : Nat) (todo : List Nat) 
         exact checkFlows_keeps_desired d fuel redo x1 x' a b c h
 
 theorem validate_false_keeps_desired (x x' : Chain) (d : Nat) (hv : validate false x = .ok x') (hd : d < x.length)
-    (hdes : (x.get d).c.desired = true) (hx : (x.get d).excluded = false) (hinc : (x'.get d).inc = false) : False := by
+    (hdes : ((x.get d).wanted || (x.get d).c.desired) = true) (hx : (x.get d).excluded = false) (hinc : (x'.get d).inc = false) : False := by
   unfold validate at hv
   split at hv
   · cases hv
@@ -169,12 +170,16 @@ theorem validate_false_keeps_desired (x x' : Chain) (d : Nat) (hv : validate fal
       · rw [if_pos ⟨hj, hd⟩, if_pos hj, hj]
       · rw [if_neg (fun hh => hj hh.1), if_neg hj]
     obtain ⟨_, _, _, r2, r3, r4, _⟩ := markAll_sim d _ x _ [] x1 rem hrel hx hm
-    have := checkFlows_keeps_desired d _ rem x1 x' (r4 (by simpa using hd) hd) (by rw [r3]; exact hdes) r2 hv
+    have hw1 : (x1.get d).wanted = (x.get d).wanted := by
+      have := (markAll_FR _ x [] x1 rem hm).2 d
+      unfold flagsOnly at this
+      rw [← this]
+    have := checkFlows_keeps_desired d _ rem x1 x' (r4 (by simpa using hd) hd) (by rw [r3, hw1]; exact hdes) r2 hv
     rw [this] at hinc; cases hinc
 
 /-- **a trial validation gives the same verdict for both readings**, and related chains when it succeeds -/
 theorem validate_trial_sim (d : Nat) (x y : Chain) (hrel : RelD d x y) (hs : Sym x) (hd : d < x.length)
-    (hreq : (x.get d).c.required = false) (hdes : (x.get d).c.desired = true) (hx : (x.get d).excluded = false) :
+    (hreq : (x.get d).c.required = false) (hdes : ((x.get d).wanted || (x.get d).c.desired) = true) (hx : (x.get d).excluded = false) :
     (∃ x' y', validate false x = .ok x' ∧ validate false y = .ok y' ∧ RelD d x' y') ∨
     (∃ e e', validate false x = .error e ∧ validate false y = .error e') := by
   cases hv : validate false x with
